@@ -1114,6 +1114,105 @@ func scenarioConcurrent(seed int64, idle, frame time.Duration) *verdict {
 	return w.finish(v, 0, 8*time.Second)
 }
 
+func answers(id uint32) func(hwebsocket.Msg) bool {
+	return func(m hwebsocket.Msg) bool {
+		var resp hagallpb.Response
+		m.DataTo(&resp)
+		return resp.RequestId == id
+	}
+}
+
+// scenarioShared: one member keeps rewriting the items of a session - a component, a pose, an action, a floor - while
+// others keep reading the very same items: component lists, region queries, and the session and module state handed to
+// a member who joins again and again.  What the stores publish is read by other goroutines: it may be replaced, never
+// rewritten in place (C09; under the race detector an in-place write shows as a race with the encoder).
+func scenarioShared(seed int64, idle, frame time.Duration) *verdict {
+	w := newWorld(seed, 5*time.Second, frame)
+	writer := w.w1
+	eid := w.entityW1
+	var tid uint32
+	writer.send(&hagallpb.EntityComponentTypeAddRequest{Type: hagallpb.MsgType_MSG_TYPE_ENTITY_COMPONENT_TYPE_ADD_REQUEST, Timestamp: now(), RequestId: rid(), EntityComponentTypeName: "shared"})
+	if m, ok := writer.waitFor(hagallpb.MsgType_MSG_TYPE_ENTITY_COMPONENT_TYPE_ADD_RESPONSE, patience, nil); ok {
+		var b hagallpb.EntityComponentTypeAddResponse
+		m.DataTo(&b)
+		tid = b.EntityComponentTypeId
+	}
+	if tid == 0 {
+		return &verdict{"request-never-completes", "the component type request of the writer got no answer"}
+	}
+	writer.send(&hagallpb.EntityComponentAddRequest{Type: hagallpb.MsgType_MSG_TYPE_ENTITY_COMPONENT_ADD_REQUEST, Timestamp: now(), RequestId: rid(), EntityComponentTypeId: tid, EntityId: eid, Data: []byte{1}})
+	writer.waitFor(hagallpb.MsgType_MSG_TYPE_ENTITY_COMPONENT_ADD_RESPONSE, patience, nil)
+	readers := []*client{w.w2}
+	for i := 0; i < 2; i++ {
+		c := w.s.dial(fmt.Sprintf("r%d", i), true)
+		c.join(w.sidA)
+		c.send(&hagallpb.EntityComponentTypeSubscribeRequest{Type: hagallpb.MsgType_MSG_TYPE_ENTITY_COMPONENT_TYPE_SUBSCRIBE_REQUEST, Timestamp: now(), RequestId: rid(), EntityComponentTypeId: tid})
+		readers = append(readers, c)
+		w.all = append(w.all, c)
+	}
+	comer := w.s.dial("comer", true)
+	w.all = append(w.all, comer)
+	stopAt := time.Now().Add(900 * time.Millisecond)
+	var wg sync.WaitGroup
+	wg.Add(1)
+	go func() {
+		defer wg.Done()
+		r := rand.New(rand.NewSource(seed))
+		for i := 0; time.Now().Before(stopAt); i++ {
+			switch i % 4 {
+			case 0:
+				writer.send(&hagallpb.EntityComponentUpdate{Type: hagallpb.MsgType_MSG_TYPE_ENTITY_COMPONENT_UPDATE, Timestamp: now(), EntityComponentTypeId: tid, EntityId: eid, Data: bytes.Repeat([]byte{byte(i)}, 1+r.Intn(200))})
+			case 1:
+				writer.send(&hagallpb.EntityUpdatePose{Type: hagallpb.MsgType_MSG_TYPE_ENTITY_UPDATE_POSE, Timestamp: now(), EntityId: eid, Pose: &hagallpb.Pose{Px: r.Float32()}})
+			case 2:
+				writer.send(&vikjapb.EntityActionRequest{Type: vikjapb.MsgType_MSG_TYPE_VIKJA_ENTITY_ACTION_REQUEST, Timestamp: now(), RequestId: rid(),
+					EntityAction: &vikjapb.EntityAction{EntityId: eid, Name: "a", Timestamp: now(), Data: bytes.Repeat([]byte{byte(i)}, 1+r.Intn(100))}})
+			default:
+				writer.send(&dagazpb.DagazQuadSample{Type: dagazpb.MsgType_MSG_TYPE_DAGAZ_QUAD_SAMPLE, Timestamp: now(), Samples: []*dagazpb.Quad{{Center: &dagazpb.Point{X: float32(r.Intn(6)), Z: float32(r.Intn(6))}, Extents: &dagazpb.Point{X: 1, Z: 1}}}})
+			}
+			if i%8 == 7 {
+				time.Sleep(time.Millisecond)
+			}
+		}
+	}()
+	for i, c := range readers {
+		wg.Add(1)
+		go func(i int, c *client) {
+			defer wg.Done()
+			for n := 0; time.Now().Before(stopAt); n++ {
+				id := rid()
+				if n%3 == 2 {
+					c.send(&dagazpb.DagazGetRegionRequest{Type: dagazpb.MsgType_MSG_TYPE_DAGAZ_GET_REGION_REQUEST, Timestamp: now(), RequestId: id, Min: &dagazpb.Point{X: -10, Z: -10}, Max: &dagazpb.Point{X: 10, Z: 10}})
+					c.waitFor(hagallpb.MsgType(dagazpb.MsgType_MSG_TYPE_DAGAZ_GET_REGION_RESPONSE), patience, answers(id))
+					continue
+				}
+				c.send(&hagallpb.EntityComponentListRequest{Type: hagallpb.MsgType_MSG_TYPE_ENTITY_COMPONENT_LIST_REQUEST, Timestamp: now(), RequestId: id, EntityComponentTypeId: tid})
+				c.waitFor(hagallpb.MsgType_MSG_TYPE_ENTITY_COMPONENT_LIST_RESPONSE, patience, answers(id))
+			}
+		}(i, c)
+	}
+	wg.Add(1)
+	go func() {
+		defer wg.Done()
+		for n := 0; time.Now().Before(stopAt); n++ {
+			if n%2 == 0 {
+				comer.join(w.sidA)
+			} else {
+				comer.join("")
+			}
+		}
+	}()
+	wg.Wait()
+	var v *verdict
+	for i, c := range append(readers, writer, comer) {
+		if !c.ping(patience) {
+			v = &verdict{"request-never-completes", fmt.Sprintf("client %d got no ping response within 4 s after the shared phase; server goroutines: %s", i, leftoverStacks())}
+			break
+		}
+	}
+	return w.finish(v, 0, 8*time.Second)
+}
+
 // scenarioChurn: sessions created and left at once, again and again - a session ends with its last member, and with it
 // its frame worker (C07)
 func scenarioChurn(seed int64, idle, frame time.Duration) *verdict {
@@ -1336,6 +1435,7 @@ var scenarios = map[string]func(int64, time.Duration, time.Duration) *verdict{
 	"receipts": scenarioReceipts,
 	"churn":    scenarioChurn, "types": scenarioTypes,
 	"concurrent": scenarioConcurrent,
+	"shared":     scenarioShared,
 	"order":      scenarioOrder,
 	"malformed":  scenarioMalformed, "fields": scenarioFields, "burst": scenarioBurst, "abrupt": scenarioAbrupt, "stall-pose": scenarioStallPose, "stall-switch": scenarioStallSwitch, "bigframe": scenarioBigFrame,
 	"stall-chatty": scenarioStallChatty, "stall-silent": scenarioStallSilent, "idle": scenarioIdle,
